@@ -506,7 +506,7 @@ except Exception as e:
 '''
 
 
-@harness(['C16'], 'supp.remote.Environment._run')
+@harness(['C16', 'C15'], 'supp.remote.Environment._run')
 def run_launch(run):
     """_run(): launches exactly one process; the attribute `conn` does not exist before the connection is established (other threads test its
     presence to decide whether a server must be started) and is the connection afterwards; when the server never accepts, _run raises after
@@ -524,7 +524,8 @@ def run_launch(run):
             class FakePopen(object):
                 alive = True
 
-                def __init__(self, args, env=None):
+                def __init__(self, args, env=None, **kw):
+                    self.kw = kw
                     launches.append(self)
 
                 def kill(self):
@@ -557,6 +558,10 @@ def run_launch(run):
                 subprocess.Popen, MC.Client, R.time.time, R.time.sleep = real
             run.case = label
             prove('one-process-launched', len(launches) == 1, path=path)
+            piped = sorted(k for p_ in launches for k in ('stdin', 'stdout', 'stderr') if p_.kw.get(k) == subprocess.PIPE)
+            prove('server-streams-are-not-pipes-nobody-reads', not piped,
+                  clause='the server logs every failed request to stderr: a pipe the client never reads fills up (64 KiB) and the server blocks in the '
+                         'write before it replies - no later call is answered [piped: %r]' % (piped,), path=path)
             prove('no-connection-attribute-before-it-is-established', seen and not any(seen),
                   clause='while _run is still trying to connect, `conn` does not exist: a caller that tests for it goes through run() and waits [%r]' % (seen[:6],), path=path)
             if fails < 10 ** 9:
